@@ -428,6 +428,11 @@ def run(S):
     rule_rec(S)
     rule_rec0(S)
     rule_miss(S)
+    # a roll-back must not cut the node set below what enclosing levels recorded (shared with C04)
+    from checks import C04
+    S.rule('R-RBK', 'roll-back closures of scan / scan_border restore each container (result list, node-version vector) '
+                    'to the size recorded for that container')
+    C04.rule_rbk_sizes(S)
     # the miss report is only meaningful for a border that is still the right one: post-lookup check (shared with C01)
     from checks import occ
     S.rule('R-PLC', 'get<V>: before the miss is reported (and before the slot is read) the version get_lv_of validated is '
